@@ -244,7 +244,7 @@ PROPS = {
     },
     "C10": {
         "required_theorems": ["c10_samplewise", "c10_nrzi", "c10_nrzi_xor_tee_delay", "c10_skip", "c10_delay", "c10_rtlsdr",
-                              "c10_s2pdu", "c10_resampler", "c10_v2s", "c10_v2s_call", "c10_constant_source"],
+                              "c10_s2pdu", "c10_resampler", "c10_v2s", "c10_v2s_call", "c10_constant_source", "c10_fft_stream", "c10_fft_stream_call"],
         "runs": [
             {"sub": "blocks", "quick": ["--seed", "{seed}", "--set", "modelled", "--cases", 1600, "--steps", 30],
              "thorough": ["--seed", "{seed}", "--set", "modelled", "--cases", 80000, "--steps", 60]},
@@ -462,6 +462,8 @@ PROPS = {
                 "second metadata member (must be refused; the lookup also compared with the Lean model); AuEncode->AuDecode "
                 "through one-page streams with random chunking against the PCM16 quantisation. distinct = distinct request.",
         "trusted_base": GLOBAL_TB + [
+            "TcpSource call-by-call comparison assumes that one small write_all on a loopback TCP connection with TCP_NODELAY "
+            "is delivered to one blocking read() in one piece (a violation would show as a mismatch, not hide one)",
             "modelled, not verified: the kernel, std::io (read may return any non-empty prefix), the tar crate (an archive is its "
             "member list), serde_json; the f32<->i16 conversions of the AU codec are parameters of the model",
         ],
@@ -526,6 +528,10 @@ PROPS = {
             "PARTIAL BY NATURE: the float front end (filters, demodulator, clock recovery) is validated on generated signals, "
             "not proved; IEEE-754, libm, rustfft trusted",
             "the harness modulators are idealised (rectangular FSK / continuous-phase AFSK, no noise)",
+            "c20_zero_crossing_ideal is about zcStep instantiated with exact rationals (as u64 = floor, as f32 = cast); the same "
+            "definition instantiated with Lean's Float32 (IEEE binary32; Float32.toUInt64 saturating with NaN -> 0 like Rust's `as`; "
+            "UInt64.toFloat32 round-to-nearest-even) is what is compared bit for bit with the real block; f32 rounding of "
+            "last_cross += clock is NOT covered by the theorem (validated: --zc-ideal runs the real block on ideal waveforms)",
         ],
         "assumptions": ["the transmission continues (flags) for at least one FFT batch after the last frame, as a real "
                         "signal does: the block filters only emit whole batches",
